@@ -2,7 +2,10 @@
 use crate::SendMode;
 use crate::frame;
 
+#[cfg(not(feature = "uflow_verif"))]
 use std::time;
+#[cfg(feature = "uflow_verif")]
+use crate::verif::time;
 
 mod emit;
 mod frame_ack_queue;
@@ -19,6 +22,9 @@ mod send_rate;
 
 #[cfg(test)]
 mod packet_tests;
+
+#[cfg(feature = "uflow_verif")]
+pub use send_rate::{SendRateComp, FeedbackData};
 
 const INITIAL_RTT_ESTIMATE_MS: u64 = 150;
 const INITIAL_RTO_ESTIMATE_MS: u64 = 4*INITIAL_RTT_ESTIMATE_MS;
@@ -429,6 +435,35 @@ impl HalfConnection {
         dfe.finalize();
 
         return Ok(());
+    }
+}
+
+#[cfg(feature = "uflow_verif")]
+#[derive(Clone,Debug,PartialEq)]
+pub struct VerifStats {
+    pub rx_alloc: usize,
+    pub tx_alloc: usize,
+    pub ack_queue_len: usize,
+    pub send_queue_len: usize,
+    pub pending_queue_len: usize,
+    pub resend_queue_len: usize,
+    pub send_rate: f64,
+    pub flush_alloc: isize,
+}
+
+#[cfg(feature = "uflow_verif")]
+impl HalfConnection {
+    pub fn verif_stats(&self) -> VerifStats {
+        VerifStats {
+            rx_alloc: self.packet_receiver.verif_alloc(),
+            tx_alloc: self.packet_sender.verif_alloc(),
+            ack_queue_len: self.frame_ack_queue.verif_len(),
+            send_queue_len: self.packet_sender.pending_count(),
+            pending_queue_len: self.pending_queue.len(),
+            resend_queue_len: self.resend_queue.len(),
+            send_rate: self.send_rate_comp.send_rate(),
+            flush_alloc: self.flush_alloc,
+        }
     }
 }
 
